@@ -98,7 +98,7 @@ def norm_label(label):
 
 def parse(lines):
     d = {"secrets": [], "outs": [], "files": [], "dirs": [], "matrix": [], "lives": [], "steps": [], "errs": [], "info": {}, "ends": [],
-         "umask_at_start": None, "done": False}
+         "umask_at_start": None, "done": False, "ni": [], "twins": []}
     for l in lines:
         f = l.split("\t")
         k = f[0]
@@ -112,6 +112,10 @@ def parse(lines):
                                "data": b"" if f[6] == "-" else bytes.fromhex(f[6]), "life": len(d["lives"]) - 1})
         elif k == "DIR":
             d["dirs"].append({"node": int(f[1]), "rel": f[2], "mode": int(f[3], 8), "umask": int(f[4], 8)})
+        elif k == "NI":
+            d["ni"].append({"twin": f[1], "label": f[2], "a": b"" if f[3] == "-" else bytes.fromhex(f[3]), "b": b"" if f[4] == "-" else bytes.fromhex(f[4])})
+        elif k == "TWIN":
+            d["twins"].append((f[1], f[2], f[3]))
         elif k == "MATRIX":
             d["matrix"].append((f[1], f[2]))
         elif k == "LIFE":
@@ -151,7 +155,24 @@ def chunks(data):
 
 
 def explore(ctx, res):
-    tier = "thorough" if ctx["deep"] else ctx["tier"]
+    if ctx.get("replay"):
+        # a replay file names the harness invocation (seed, tier) and the capture / file that failed: re-run exactly that
+        r = json.load(open(ctx["replay"]))
+        args = r.get("harness_args") or ["secrecy", str(r.get("seed", ctx["seed"])), r.get("tier", ctx["tier"])]
+        ctx = dict(ctx, seed=int(args[1]), rng=core.Rng(int(args[1])))
+        res.cov["replayed"] = {"file": ctx["replay"], "harness_args": args, "signature": r.get("signature")}
+        return _explore(ctx, res, args[2])
+    if ctx["deep"] and ctx["tier"] == "quick" and not ctx.get("_c15_second_pass"):
+        # something upstream (translator / proof / build) broke: look for a concrete failing input, cheapest budget first
+        _explore(dict(ctx, _c15_second_pass=True), res, "quick")
+        if any(found for _, found in res.violations):
+            return
+        res.violations.clear()
+        res.known.clear()
+    _explore(ctx, res, "thorough" if ctx["deep"] else ctx["tier"])
+
+
+def _explore(ctx, res, tier):
     rng = ctx["rng"]
     seed = ctx["seed"]
     d = None
@@ -159,7 +180,8 @@ def explore(ctx, res):
     for attempt in range(2):
         rc, lines, err = run_harness(seed + 1000 * attempt, tier)
         d = parse(lines)
-        ok = rc == 0 and d["done"] and not d["errs"] and all(r == "ok" for _, r in d["ends"]) and all(r == "ok" for _, r in d["matrix"])
+        ok = rc == 0 and d["done"] and not d["errs"] and all(r == "ok" for _, r in d["ends"]) and all(r == "ok" for _, r in d["matrix"]) \
+            and all(t[2] == "ok" for t in d["twins"])
         attempts.append({"rc": rc, "errs": d["errs"][:3], "ends": d["ends"]})
         if ok:
             break
@@ -167,7 +189,8 @@ def explore(ctx, res):
         # still evaluate what was captured below, and retry once for completeness
         if attempt == 1 or not d["secrets"]:
             break
-    life_complete = rc == 0 and d["done"] and not d["errs"] and all(r == "ok" for _, r in d["ends"])
+    life_complete = rc == 0 and d["done"] and not d["errs"] and all(r == "ok" for _, r in d["ends"]) and all(t[2] == "ok" for t in d["twins"])
+    attempts[-1]["twins"] = d["twins"]
 
     # ---- secrets (deduplicated by value; a share that does not change between epochs is one secret)
     secrets = {}
@@ -209,6 +232,31 @@ def explore(ctx, res):
                                            "context(hex): " + ctxt.hex(), "context(text): " + ctxt.decode("latin-1").encode("unicode_escape").decode()],
                               "oracle": "no response, packet, HTTP body or log line may contain a node's long-term scalar or share scalar in any listed encoding"}))
 
+    # ---- P5a': noninterference on the real code: twin folders (same public files, different secret scalars) answer identically
+    ni_equal = 0
+    for x in d["ni"]:
+        evaluations += 1
+        d["outs"].append({"label": x["label"], "node": "twin", "data": x["a"], "life": None})
+        d["outs"].append({"label": x["label"], "node": "twin", "data": x["b"], "life": None})
+        if x["a"] == x["b"]:
+            ni_equal += 1
+        else:
+            i = next((j for j in range(min(len(x["a"]), len(x["b"]))) if x["a"][j] != x["b"][j]), min(len(x["a"]), len(x["b"])))
+            viol.append((f"noninterference:{x['label']}",
+                         {"engine": "secrecy", "kind": "impl-violates",
+                          "ops": ["verifh secrecy %d %s" % (seed, tier), f"twin pair {x['twin']}: two daemons on folders with identical public files and different long-term / share scalars", f"query {x['label']}"],
+                          "observed": [f"answers differ from byte {i}", "A: " + x["a"][max(0, i - 16):i + 48].hex(), "B: " + x["b"][max(0, i - 16):i + 48].hex()],
+                          "oracle": "a non-signing answer must not depend on the node's secret scalars"}))
+    for o in d["outs"][-2 * len(d["ni"]):] if d["ni"] else []:
+        for s in secrets:
+            evaluations += 1
+            hit = first_hit(s["needles_model"] + s["needles_extra"], o["data"])
+            if hit:
+                viol.append((f"leak:{o['label']}:{s['kinds'][0].split('-')[0]}:{hit[0]}",
+                             {"engine": "secrecy", "kind": "impl-violates", "ops": ["verifh secrecy %d %s" % (seed, tier), "twin daemon", f"query {o['label']}"],
+                              "observed": [f"{hit[0]} encoding of node {s['node']}'s {s['kinds'][0]} scalar at offset {hit[1]}"],
+                              "oracle": "no response may contain a node's long-term scalar or share scalar"}))
+
     # ---- P5b: files
     for f in d["files"]:
         found = []
@@ -247,11 +295,13 @@ def explore(ctx, res):
 
     # ---- report property violations (known findings are filtered by signature)
     seen_sig = set()
+    reported = 0
     for sig, rep in viol:
         if sig in seen_sig:
             continue
         seen_sig.add(sig)
-        res.report(sig, dict(rep, harness_args=["secrecy", str(seed), tier]))
+        if reported < 4 and res.report(sig, dict(rep, harness_args=["secrecy", str(seed), tier])):
+            reported += 1
     unknown_viol = [s for s in seen_sig if s != SIG_DKGDB]
 
     # ---- P4: model diff
@@ -261,6 +311,10 @@ def explore(ctx, res):
         if not f["cls"].startswith("other:"):
             model_lines.append(f"file {f['cls']} {f['umask']:o}")
             tags.append(("file", f))
+    for x in d["ni"]:
+        st = label_stats.setdefault(x["label"], {"blobs": 0, "bytes": 0})
+        st["blobs"] += 2
+        st["bytes"] += len(x["a"]) + len(x["b"])
     labels = sorted(label_stats)
     for lb in labels:
         nl = norm_label(lb)
@@ -358,7 +412,7 @@ def explore(ctx, res):
     res.cov["distinct_nontrivial"] = len(exercised) + len({(f["cls"], f["umask"]) for f in d["files"]})
     res.cov["rule"] = ("generator: a fixed script (key generation, DKG, ≥3 rounds, every control/public/protocol/HTTP endpoint incl. error paths, backup, reshare "
                        "[thorough: with a joiner and a leaver on alternate schemes], transition, restart + sync) run on real in-process daemons; quick = 1 scheme chosen by seed, "
-                       "thorough = all 5 schemes; plus the real file-creating code under umasks 0, 022, 027, 077, 002. evaluations = (captured blob or file) × (distinct secret) scans + model ops; "
+                       "thorough = all 5 schemes; plus the real file-creating code under umasks 0, 022, 027, 077, 002; plus noninterference twins (two daemons on folders equal in every public file, different secret scalars, 17 non-signing endpoints compared byte for byte; quick 1 pair, thorough 5). evaluations = (captured blob or file) × (distinct secret) scans + model ops; "
                        "distinct_nontrivial = distinct output channels (gRPC method × direction, HTTP route, log sink, raw stream) that carried at least one non-empty blob "
                        "+ distinct (file class, umask) pairs stat'ed")
     res.cov["traces_validated_against_impl"] = validated
@@ -392,5 +446,7 @@ def explore(ctx, res):
         "dir_modes": sorted({f"{x['rel'].split('/')[-1] if x['rel'] != '.' else '<config folder>'}:{x['mode']:o}@umask{x['umask']:o}" for x in d["dirs"]})[:40],
         "model_ops": {"file": sum(1 for t in tags if t[0] == "file"), "chan": sum(1 for t in tags if t[0] == "chan"), "scan": len(scan_jobs)},
         "scanner_controls": sum(1 for j in scan_jobs if j[2] is not None),
+        "noninterference_twins": {"pairs": len(d["twins"]), "schemes": [t[1] for t in d["twins"]], "answers_compared": len(d["ni"]), "equal": ni_equal,
+                                  "endpoints": sorted({x["label"] for x in d["ni"]})},
         "corpus": corpus_state, "violation_signatures": sorted(seen_sig), "attempts": attempts,
     }
